@@ -35,8 +35,8 @@ KEYS_PT = ("center", "shift", "rot_origin", "post_origin")
 
 def budget(tier):
     if tier == "quick":
-        return dict(max_examples=70, workers=6, time_s=170, min_cases=30)
-    return dict(max_examples=1500, workers=16, time_s=1200, min_cases=60)
+        return dict(max_examples=220, workers=8, time_s=170, min_cases=60)
+    return dict(max_examples=8000, workers=16, time_s=1200, min_cases=120)
 
 
 def scale_shape(shape, s):
